@@ -881,8 +881,31 @@ def _constdict_get(ex, st, base, args, kwargs, k, where):
     return k(st, VOpt(ex.arbitrary(BOOL, "tbl_none"), VAny(ex.arbitrary(INT, "tbl_val"))))
 
 
+def joined_fn_name(sep: str, gen) -> str:
+    """name of the uninterpreted function standing for `sep.join(<elt> for <target> in xs)`: determined by the
+    separator and the text of the element expression and target (a deterministic function of xs only if the element
+    expression mentions nothing but the target's names - checked)"""
+    import ast as _ast
+    import hashlib
+    g = gen.generators[0]
+    tnames = {n.id for n in _ast.walk(g.target) if isinstance(n, _ast.Name)}
+    used = {n.id for n in _ast.walk(gen.elt) if isinstance(n, _ast.Name)}
+    if not used <= tnames:
+        raise Unsupported(f"join over a generator whose element mentions other names: {sorted(used - tnames)}")
+    key = sep + "|" + _ast.dump(gen.elt) + "|" + _ast.dump(g.target)
+    return "joined$" + hashlib.sha1(key.encode()).hexdigest()[:10]
+
+
 @method("VStr", "join")
 def _s_join(ex, st, base, args, kwargs, k, where):
+    a = args[0] if args else None
+    if isinstance(a, VPy) and a.what == "genexp" and base.lit is not None:
+        it = ex.unwrap(a.extra)
+        if isinstance(it, VTuple):
+            raise Unsupported("join over a static tuple")
+        t, ek = ex.as_seq(st, it)
+        fn = joined_fn_name(base.lit, a.obj)
+        return k(st, VStr(_ufun(ex, fn, [f"(Seq {elem_sort(ek)})"], STR, t)))
     return k(st, VStr(ex.arbitrary(STR, "joined")))
 
 
